@@ -157,7 +157,7 @@ let () =
     if not plansame then mismatch id "the plan announced by Run differs from insertHibernateBoot(base plan)";
     let lc = lifecycle_ok_h plan in
     if not lc then mismatch id "the executed plan violates the branch lifecycle (C04 predicate lifecycle_ok_h)";
-    if erase_hb plan = plan0 then count "base_plan_equal_to_baseline_run" else count "base_plan_differs_from_baseline_run(planner_map_order)";
+    if erase_hb plan = plan0 then count "base_plan_equal" else count "base_plan_differs";
     if List.exists is_hb plan then count "plans_with_hibernation";
 
     (* ------------------------------------------------------------------ fine correspondence *)
